@@ -464,19 +464,22 @@ impl<
             self.value = Ok(Some(output));
             return Ok(());
         }
-        while self.input_values[0].time <= output.time - self.window {
+        //Compare ages rather than computing `output.time - self.window`, which overflows when a timestamp is
+        //within a window of the smallest representable time.
+        while Time(output.time.0.saturating_sub(self.input_values[0].time.0)) >= self.window {
             self.input_values.pop_front();
         }
         let mut end_times = Vec::new();
         for i in &self.input_values {
             end_times.push(i.time);
         }
-        let mut start_times = VecDeque::from(end_times.clone());
-        start_times.pop_back();
-        start_times.push_front(output.time - self.window);
+        //Each sample covers the time since the previous one; the oldest covers what is left of the window.
         let mut weights = Vec::with_capacity(self.input_values.len());
-        for i in 0..self.input_values.len() {
-            weights.push(f32::from(Quantity::from(end_times[i] - start_times[i])));
+        weights.push(f32::from(Quantity::from(
+            self.window - (output.time - end_times[0]),
+        )));
+        for i in 1..self.input_values.len() {
+            weights.push(f32::from(Quantity::from(end_times[i] - end_times[i - 1])));
         }
         let mut value = T::default();
         for i in 0..self.input_values.len() {
@@ -526,19 +529,20 @@ impl<G: Getter<Quantity, E> + ?Sized, E: Copy + Debug> Updatable<E>
             self.value = Ok(Some(output));
             return Ok(());
         }
-        while self.input_values[0].time <= output.time - self.window {
+        //Compare ages rather than computing `output.time - self.window`, which overflows when a timestamp is
+        //within a window of the smallest representable time.
+        while Time(output.time.0.saturating_sub(self.input_values[0].time.0)) >= self.window {
             self.input_values.pop_front();
         }
         let mut end_times = Vec::new();
         for i in &self.input_values {
             end_times.push(i.time);
         }
-        let mut start_times = VecDeque::from(end_times.clone());
-        start_times.pop_back();
-        start_times.push_front(output.time - self.window);
+        //Each sample covers the time since the previous one; the oldest covers what is left of the window.
         let mut weights = Vec::with_capacity(self.input_values.len());
-        for i in 0..self.input_values.len() {
-            weights.push(Quantity::from(end_times[i] - start_times[i]));
+        weights.push(Quantity::from(self.window - (output.time - end_times[0])));
+        for i in 1..self.input_values.len() {
+            weights.push(Quantity::from(end_times[i] - end_times[i - 1]));
         }
         let mut value = self.input_values[0].value.clone() * weights[0];
         for i in 1..self.input_values.len() {
